@@ -3,6 +3,7 @@
   Self-loops never count: `N v` never contains `v`.
 -/
 import GraphrsModel.Spec.Components
+import GraphrsModel.CScalar
 namespace Graphrs
 namespace Abs
 
@@ -55,37 +56,47 @@ def fagioloAt (a : Abs) (v : Nat) : Rat :=
   let dbi := sumNat (ns.map fun j => a.arc v j * a.arc j v)
   if t == 0 then 0 else (t : Rat) / (2 * (((dtot : Rat) * ((dtot : Rat) - 1)) - 2 * (dbi : Rat)))
 
-/-! weighted (geometric mean of max-normalised weights), over Float -/
-def weightOf (a : Abs) (dir : Bool) (u v : Nat) : Float :=
+/-! weighted (geometric mean of max-normalised weights): written once over the scalar record `CScalar` of
+    Model/Cluster.lean (only the record of arithmetic operations is shared with the model), read at `Float` by the
+    driver and at `ℝ` by Props/C11Weighted.lean -/
+def weightOfG {α} (S : CScalar α) (a : Abs) (dir : Bool) (u v : Nat) : α :=
   match a.edges.find? (fun e => sameKey dir e u v) with
-  | some ⟨_, _, some w, _⟩ => Float.ofInt w
-  | _ => 0.0
-def maxW (a : Abs) : Float :=
+  | some ⟨_, _, some w, _⟩ => S.ofInt w
+  | _ => S.zero
+def maxWG {α} (S : CScalar α) (a : Abs) : α :=
   match a.edges.filterMap (fun e => e.w) with
-  | [] => 1.0
-  | w :: ws => Float.ofInt (ws.foldl max w)
-def fsumS (l : List Float) : Float := l.foldl (· + ·) 0.0
+  | [] => S.one
+  | w :: ws => S.ofInt (ws.foldl max w)
+def ssumG {α} (S : CScalar α) (l : List α) : α := l.foldl S.add S.zero
 
 /-- undirected: (1/(d(d-1))) Σ over ordered pairs (u,w) of adjacent neighbours of cbrt(ŵ_vu ŵ_uw ŵ_wv) -/
-def weightedClusteringAt (a : Abs) (v : Nat) : Float :=
-  let m := a.maxW
+def weightedClusteringAtG {α} (S : CScalar α) (a : Abs) (v : Nat) : α :=
+  let m := a.maxWG S
   let nb := a.N v
-  let d := Float.ofNat nb.length
-  let t := fsumS (nb.flatMap fun u => (nb.filter fun w => a.adjacent u w).map fun w =>
-    Float.cbrt (a.weightOf false v u / m) * Float.cbrt (a.weightOf false u w / m) * Float.cbrt (a.weightOf false w v / m))
-  if t == 0.0 then 0.0 else t / (d * (d - 1.0))
+  let d := S.ofNat nb.length
+  let t := ssumG S (nb.flatMap fun u => (nb.filter fun w => a.adjacent u w).map fun w =>
+    S.mul (S.mul (S.cbrt (S.div (a.weightOfG S false v u) m)) (S.cbrt (S.div (a.weightOfG S false u w) m)))
+      (S.cbrt (S.div (a.weightOfG S false w v) m)))
+  if S.isZero t then S.zero else S.div t (S.mul d (S.sub d S.one))
 
 /-- directed: T = [(Ŵ^[1/3] + (Ŵ^T)^[1/3])^3]_vv over the same normalisation as the unweighted form -/
-def weightedFagioloAt (a : Abs) (v : Nat) : Float :=
-  let m := a.maxW
+def weightedFagioloAtG {α} (S : CScalar α) (a : Abs) (v : Nat) : α :=
+  let m := a.maxWG S
   let ns := a.nodeNames
-  let s (u w : Nat) : Float :=
-    (if a.arc u w == 1 then Float.cbrt (a.weightOf true u w / m) else 0.0) +
-    (if a.arc w u == 1 then Float.cbrt (a.weightOf true w u / m) else 0.0)
-  let t := fsumS (ns.flatMap fun j => ns.map fun k => s v j * s j k * s k v)
-  let dtot := Float.ofNat (sumNat (ns.map fun j => a.sym v j))
-  let dbi := Float.ofNat (sumNat (ns.map fun j => a.arc v j * a.arc j v))
-  if t == 0.0 then 0.0 else t / (2.0 * (dtot * (dtot - 1.0) - 2.0 * dbi))
+  let s (u w : Nat) : α :=
+    S.add (if a.arc u w == 1 then S.cbrt (S.div (a.weightOfG S true u w) m) else S.zero)
+      (if a.arc w u == 1 then S.cbrt (S.div (a.weightOfG S true w u) m) else S.zero)
+  let t := ssumG S (ns.flatMap fun j => ns.map fun k => S.mul (S.mul (s v j) (s j k)) (s k v))
+  let dtot := S.ofNat (sumNat (ns.map fun j => a.sym v j))
+  let dbi := S.ofNat (sumNat (ns.map fun j => a.arc v j * a.arc j v))
+  if S.isZero t then S.zero else S.div t (S.mul S.two (S.sub (S.mul dtot (S.sub dtot S.one)) (S.mul S.two dbi)))
+
+/-! the `Float` instances (what the driver compares with the implementation) -/
+def weightOf (a : Abs) (dir : Bool) (u v : Nat) : Float := a.weightOfG floatCScalar dir u v
+def maxW (a : Abs) : Float := a.maxWG floatCScalar
+def fsumS (l : List Float) : Float := ssumG floatCScalar l
+def weightedClusteringAt (a : Abs) (v : Nat) : Float := a.weightedClusteringAtG floatCScalar v
+def weightedFagioloAt (a : Abs) (v : Nat) : Float := a.weightedFagioloAtG floatCScalar v
 
 end Abs
 end Graphrs
